@@ -45,7 +45,7 @@ def gen_cases(tier, seed):
         n = int(rng.integers(1, 25))
         b = int(rng.integers(1, n + 1))
         cases.append(dict(kind="param", n=n, b=b, spec={"ka": ca, "kb": cb}, method=["uniform", "grid"][k % 3 == 0],
-                          key=seed * 100 + k, eager=(k % 4 == 0), cost=1.0))
+                          key=seed * 100 + k, eager=(k % 4 == 0), cost=1.0, x64=bool(k % 3 != 1), inttab=bool(k % 4 == 3)))
     for k in range(12 if q else 80):
         nn = 1 + k % 3
         n = int(rng.integers(2, 16))
@@ -138,6 +138,11 @@ def run_case(case, rec):
         for j, (kk, spec) in enumerate(sorted(case["spec"].items())):
             lo, hi = (2.0 + 3 * j, 3.0 + 3 * j)
             tab = np.arange(n, dtype=float) * 0.5 + 100.0 * (j + 1)  # disjoint from every range
+            if case.get("inttab"):
+                # an integer table (identifiers, counts): its entries are served as they are - in the default 32-bit mode
+                # these values have no exact float32 representation
+                tab = 16777217 + 2 * np.arange(n, dtype=np.int64) + 1000 * j
+                rec.count("integer_user_tables")
             if spec in ("range", "both1", "both2"):
                 ranges[kk] = (lo, hi)
             if spec in ("table1", "both1"):
